@@ -5,15 +5,23 @@
 // repository's CURRENT source, and emits one Gallina definition per function.  coq/GenLink/GoArithLink.v
 // then proves that the emitted definitions equal the hand-written model (Model/GF16.v, Model/Parallel.v,
 // Model/CRC.v, Model/CLI.v) for all arguments, so the theorems of Props/ are re-checked against what the
-// code says now.  Anything outside the subset (range loops, switch, continue, goto, closures, slices,
-// maps, pointers other than the receiver, calls to functions that are not targets, ...) is refused with
-// exit status 2 - a broken tie that the check reports.
+// code says now.  Anything outside the subset (range loops, switch, goto, closures, slices other than the
+// local ones described below, maps, pointers other than the receiver, calls to functions that are neither
+// targets nor whitelisted externs, ...) is refused: the target is reported as NOT TRANSLATED - a broken tie
+// that the check reports.
 //
 // Semantics emitted: unsigned types are N with explicit wrap (wadd/wsub/wmul/wshl/wnot/wrap), int is Z
-// without overflow, / and % on int are Z.quot/Z.rem with a zero-divisor guard, array indexing is guarded
-// (aget), loops take fuel (loop), panics are Pnc.  Evaluation order: the calls, index operations and
-// division guards of one statement are hoisted in source order; an `a && b` / `a || b` whose right
-// operand needs hoisting is refused.
+// without overflow (also for <<; & | ^ >> on int are Z.land/lor/lxor/shiftr), / and % on int are
+// Z.quot/Z.rem with a zero-divisor guard, array indexing is guarded (aget), loops take fuel (loop), panics
+// are Pnc.  Evaluation order: the calls, index operations and division guards of one statement are hoisted
+// in source order; an `a && b` / `a || b` whose right operand needs hoisting is refused.
+//
+// Local slices and arrays (Model/GoSemList.v): `make([]T, n)` and `var x [k]T` (T unsigned) are lists of N;
+// x[i] is lget, x[i] = v is lset, both with Go's bounds check (Pnc).  A slice is never copied to another
+// variable nor passed to a target (refused), so sharing is unobservable.  Whitelisted pure external functions
+// (externs) become parameters of the definition; `T{f: v}` / `&T{f: v}` of a whitelisted struct type
+// (structFiles) is the tuple of its fields.  Go's block scopes are followed (type scope): a variable that
+// shadows a visible one, or reuses the name of an out-of-scope variable of another type, gets a primed name.
 package main
 
 import (
@@ -29,14 +37,16 @@ import (
 )
 
 type typ struct {
-	kind string // "u", "s", "bool", "untyped", "unit"
-	bits int
+	kind string // "u", "s", "bool", "untyped", "unit", "mat", "err", "list" (slice), "arr" (fixed-size array), "struct"
+	bits int    // width of an integer; width of the (unsigned) elements of a "list" / "arr" (0: the legacy []T of globalLists)
+	n    int    // length of an "arr"
+	name string // Go name of a "struct" (a key of structFiles)
 }
 
 var (
-	tInt     = typ{"s", 64}
-	tBool    = typ{"bool", 0}
-	tUntyped = typ{"untyped", 0}
+	tInt     = typ{kind: "s", bits: 64}
+	tBool    = typ{kind: "bool", bits: 0}
+	tUntyped = typ{kind: "untyped", bits: 0}
 )
 
 func (t typ) coq() string {
@@ -45,8 +55,14 @@ func (t typ) coq() string {
 		return "(list (list N))"
 	case "err":
 		return "bool"
-	case "list":
+	case "list", "arr":
 		return "(list N)"
+	case "struct":
+		var fs []string
+		for _, f := range structFields[t.name] {
+			fs = append(fs, f.t.coq())
+		}
+		return "(" + strings.Join(fs, " * ") + ")"
 	case "u":
 		return "N"
 	case "s":
@@ -58,9 +74,9 @@ func (t typ) coq() string {
 }
 
 var named = map[string]typ{
-	"int": tInt, "uint": {"u", 64}, "uint8": {"u", 8}, "byte": {"u", 8}, "uint16": {"u", 16}, "uint32": {"u", 32},
-	"uint64": {"u", 64}, "bool": tBool, "T": {"u", 16}, "Poly64": {"u", 64},
-	"Matrix": {"mat", 0}, "error": {"err", 0}, // a Matrix is its list of rows; an error is true when non-nil
+	"int": tInt, "uint": {kind: "u", bits: 64}, "uint8": {kind: "u", bits: 8}, "byte": {kind: "u", bits: 8}, "uint16": {kind: "u", bits: 16}, "uint32": {kind: "u", bits: 32},
+	"uint64": {kind: "u", bits: 64}, "bool": tBool, "T": {kind: "u", bits: 16}, "Poly64": {kind: "u", bits: 64},
+	"Matrix": {kind: "mat", bits: 0}, "error": {kind: "err", bits: 0}, // a Matrix is its list of rows; an error is true when non-nil
 }
 
 type array struct {
@@ -71,11 +87,38 @@ type array struct {
 
 // global / field / imported arrays a target may index; they become leading parameters (functions N -> N)
 var arrays = map[string]array{
-	"logTable":                  {"logTable", 65535, typ{"u", 16}},
-	"expTable":                  {"expTable", 65535, typ{"u", 16}},
-	"crc32.IEEETable":           {"ieeeTable", 256, typ{"u", 32}},
-	"w.crcOldLeaderMaskedTable": {"maskedTable", 256, typ{"u", 32}},
+	"logTable":                  {"logTable", 65535, typ{kind: "u", bits: 16}},
+	"expTable":                  {"expTable", 65535, typ{kind: "u", bits: 16}},
+	"crc32.IEEETable":           {"ieeeTable", 256, typ{kind: "u", bits: 32}},
+	"w.crcOldLeaderMaskedTable": {"maskedTable", 256, typ{kind: "u", bits: 32}},
 }
+
+// pure external functions a target may call: they become parameters of the generated definition (after the
+// arrays), to be instantiated by the link theorem.  Assumed of the Go function: it terminates without a panic, its
+// result depends on the argument VALUES only, and it neither modifies nor retains a slice argument.
+type extern struct {
+	pkg          string // import path that the qualifier must denote in the target's file
+	coq, coqType string
+	params       []typ
+	result       typ
+}
+
+var externs = map[string]extern{
+	"crc32.ChecksumIEEE": {"hash/crc32", "checksumIEEE", "list N -> N", []typ{{kind: "list", bits: 8}}, typ{kind: "u", bits: 32}},
+}
+
+// struct types a target may build with a composite literal (T{f: v, ...} or &T{f: v, ...}): name -> file declaring
+// it.  The fields are read from the declaration; a value of the type is the tuple of its fields in DECLARATION
+// order.  Only a fresh literal is a value of the type (no field access, no assignment through a pointer), so the
+// pointer of &T{...} is never aliased and is identified with the value.
+var structFiles = map[string]string{"crc32Window": "par2/crc32.go"}
+
+type field struct {
+	name string
+	t    typ
+}
+
+var structFields = map[string][]field{}
 
 type target struct {
 	file, recv, name, coq string
@@ -102,6 +145,8 @@ var targets = []target{
 	{"gf2p16/matrix.go", "Matrix", "rowReduceForInverse", "gen_rowReduceForInverse", 0, "(S (length m))", []string{"m", "n"}, true},
 	// the table of PAR2 constants: `generators` is a package-level slice the function appends to (in/out, starts empty)
 	{"rsec16/coder.go", "", "init", "gen_coder_init", 65540, "", []string{"generators"}, false},
+	// the table of the rolling CRC: two loops of 8 rounds and one of 255; crc32.ChecksumIEEE is the parameter checksumIEEE
+	{"par2/crc32.go", "", "newCRC32Window", "gen_newCRC32Window", 300, "", nil, false},
 }
 
 // package-level slices of 16-bit field elements that a target may append to: they start empty and are returned
@@ -140,6 +185,17 @@ type sig struct {
 	ptypes  []typ
 	results []typ
 	arrays  []string // coq names of arrays used (transitively), sorted
+	externs []string // keys (in externs) of the external functions used (transitively), sorted by coq name
+}
+
+// A lexical scope of the Go function: Go name -> Gallina name.  The Gallina namespace of a function is flat (one
+// tuple of locals), so a Go variable declared while another variable of the same name is visible, or with another
+// type than an earlier (no longer visible) variable of the same name, gets a primed Gallina name (i', then two primes, ...: no
+// Go identifier contains a prime); a variable whose name and type equal those of a variable that is out of scope
+// reuses its slot.
+type scope struct {
+	parent *scope
+	names  map[string]string
 }
 
 type fn struct {
@@ -151,8 +207,11 @@ type fn struct {
 	vtypes  map[string]typ
 	rnames  []string
 	used    map[string]bool // arrays used
+	usedExt map[string]bool // externs used (keys of externs)
 	tmp     int
 	recvVar string
+	scope   *scope
+	imports map[string]string // local package name -> import path, of the target's file
 }
 
 // ---------- constants ----------
@@ -238,9 +297,82 @@ func (c *fn) typeOf(e ast.Expr) typ {
 		}
 	case *ast.StarExpr:
 		return c.typeOf(x.X)
+	case *ast.ArrayType:
+		et := c.typeOf(x.Elt)
+		if et.kind != "u" {
+			fail(e, c.fset, "slice / array of elements that are not unsigned integers")
+		}
+		if x.Len == nil {
+			return typ{kind: "list", bits: et.bits}
+		}
+		n, ok := evalConst(x.Len, c.consts)
+		if !ok || n < 0 || n > 1<<20 {
+			fail(e, c.fset, "array length that is not a small constant")
+		}
+		return typ{kind: "arr", bits: et.bits, n: int(n)}
+	}
+	if id, ok := e.(*ast.Ident); ok {
+		if _, ok := structFields[id.Name]; ok {
+			return typ{kind: "struct", name: id.Name}
+		}
 	}
 	fail(e, c.fset, "unsupported type expression")
 	return typ{}
+}
+
+// zeroOf is the Gallina term of the zero value of t
+func zeroOf(t typ) string {
+	switch t.kind {
+	case "u", "s":
+		return lit(0, t)
+	case "bool":
+		return "false"
+	case "list":
+		return "(@nil N)" // a nil slice
+	case "arr":
+		return fmt.Sprintf("(repeat 0 %d%%nat)", t.n)
+	}
+	panic(bad{"no zero value for a variable of kind " + t.kind})
+}
+
+// ---------- scopes ----------
+func newScope(parent *scope) *scope { return &scope{parent: parent, names: map[string]string{}} }
+
+// resolve gives the Gallina name of the Go variable visible under this name ("" if none)
+func (c *fn) resolve(name string) string {
+	for s := c.scope; s != nil; s = s.parent {
+		if n, ok := s.names[name]; ok {
+			return n
+		}
+	}
+	return ""
+}
+
+// visibleCoq: is a Gallina name the name of a variable that is in scope?
+func (c *fn) visibleCoq(coq string) bool {
+	for s := c.scope; s != nil; s = s.parent {
+		for _, n := range s.names {
+			if n == coq {
+				return true
+			}
+		}
+	}
+	return false
+}
+
+// inScope translates a block in a scope of its own; rest (the fall-through continuation) runs in the outer scope
+func (c *fn) inScope(stmts []ast.Stmt, rest func() string) string {
+	outer := c.scope
+	inner := newScope(outer)
+	c.scope = inner
+	r := c.block(stmts, func() string {
+		c.scope = outer
+		s := rest()
+		c.scope = inner
+		return s
+	})
+	c.scope = outer
+	return r
 }
 
 func isTypeExpr(e ast.Expr) (typ, bool) {
@@ -316,12 +448,18 @@ func (c *fn) expr(e ast.Expr, want typ, ec *ectx) (string, typ) {
 		if x.Name == "nil" && want.kind == "err" {
 			return "false", want
 		}
-		t, ok := c.vtypes[x.Name]
-		if !ok {
+		cn := c.resolve(x.Name)
+		t, ok := c.vtypes[cn]
+		if !ok || cn == "" {
 			fail(e, c.fset, "unknown identifier %s", x.Name)
 		}
-		return x.Name, t
+		return cn, t
+	case *ast.CompositeLit:
+		return c.structLit(x, ec)
 	case *ast.UnaryExpr:
+		if cl, ok := x.X.(*ast.CompositeLit); ok && x.Op == token.AND {
+			return c.structLit(cl, ec) // a fresh pointer that nothing else holds: identified with the value
+		}
 		a, t := c.expr(x.X, want, ec)
 		switch x.Op {
 		case token.SUB:
@@ -352,15 +490,40 @@ func (c *fn) expr(e ast.Expr, want typ, ec *ectx) (string, typ) {
 			}
 			return conv(a, ta, t), t
 		}
+		if id, ok := x.Fun.(*ast.Ident); ok && id.Name == "make" && c.resolve("make") == "" {
+			return c.makeSlice(x, ec)
+		}
+		if ext, ok := externs[exprKey(x.Fun)]; ok {
+			if id, isId := x.Fun.(*ast.SelectorExpr).X.(*ast.Ident); !isId || c.resolve(id.Name) != "" || c.imports[id.Name] != ext.pkg {
+				fail(e, c.fset, "%s: the qualifier is not the package %s here", exprKey(x.Fun), ext.pkg)
+			}
+			if len(x.Args) != len(ext.params) || x.Ellipsis.IsValid() {
+				fail(e, c.fset, "argument count in the call of %s", exprKey(x.Fun))
+			}
+			var terms []string
+			for i, a := range x.Args {
+				t, ta := c.expr(a, ext.params[i], ec)
+				if ta.kind == "untyped" {
+					v, _ := evalConst(a, c.consts)
+					t, ta = lit(v, ext.params[i]), ext.params[i]
+				}
+				if ta != ext.params[i] {
+					fail(a, c.fset, "argument type mismatch in the call of %s", exprKey(x.Fun))
+				}
+				terms = append(terms, t)
+			}
+			c.usedExt[exprKey(x.Fun)] = true
+			return fmt.Sprintf("(%s %s)", ext.coq, strings.Join(terms, " ")), ext.result
+		}
 		if sel, ok := x.Fun.(*ast.SelectorExpr); ok {
-			if id, ok := sel.X.(*ast.Ident); ok && c.vtypes[id.Name].kind == "mat" && sel.Sel.Name == "At" && len(x.Args) == 2 {
+			if id, ok := sel.X.(*ast.Ident); ok && c.vt(id.Name).kind == "mat" && sel.Sel.Name == "At" && len(x.Args) == 2 {
 				// m.At(i, j): both indices are range-checked by the Go code
 				i := c.matIndex(id.Name, x.Args[0], true, ec)
 				j := c.matIndex(id.Name, x.Args[1], false, ec)
-				return fmt.Sprintf("(Matrix.ent %s %s %s)", id.Name, i, j), typ{"u", 16}
+				return fmt.Sprintf("(Matrix.ent %s %s %s)", id.Name, i, j), typ{kind: "u", bits: 16}
 			}
 			if id, ok := sel.X.(*ast.Ident); ok && id.Name == "errors" && sel.Sel.Name == "New" {
-				return "true", typ{"err", 0}
+				return "true", typ{kind: "err", bits: 0}
 			}
 		}
 		vals, ts := c.call(x, ec)
@@ -369,38 +532,143 @@ func (c *fn) expr(e ast.Expr, want typ, ec *ectx) (string, typ) {
 		}
 		return vals[0], ts[0]
 	case *ast.SelectorExpr:
-		if id, ok := x.X.(*ast.Ident); ok && c.vtypes[id.Name].kind == "mat" && x.Sel.Name == "rows" {
+		if id, ok := x.X.(*ast.Ident); ok && c.vt(id.Name).kind == "mat" && x.Sel.Name == "rows" {
 			return fmt.Sprintf("(Z.of_nat (length %s))", id.Name), tInt
 		}
 		fail(e, c.fset, "unsupported selector %s", exprKey(e))
 	case *ast.IndexExpr:
 		key := exprKey(x.X)
+		if id, isId := x.X.(*ast.Ident); isId && c.resolve(id.Name) != "" {
+			// a local slice (made by make) or a local fixed-size array: a list, indexed with Go's bounds check
+			cn := c.resolve(id.Name)
+			lt := c.vtypes[cn]
+			if (lt.kind != "list" && lt.kind != "arr") || lt.bits == 0 {
+				fail(e, c.fset, "indexing of %s, which is not a slice / array of unsigned integers", key)
+			}
+			idx, late := c.index(x.Index, ec)
+			ec.binds = append(ec.binds, late...)
+			v := c.fresh()
+			ec.binds = append(ec.binds, fmt.Sprintf("lget %s %s (fun %s => ", cn, idx, v))
+			return v, typ{kind: "u", bits: lt.bits}
+		}
 		arr, ok := arrays[key]
 		if !ok {
 			fail(e, c.fset, "indexing of %s is not supported", key)
 		}
 		c.used[arr.coq] = true
-		i, ti := c.expr(x.Index, tInt, ec)
-		var idx string
-		switch ti.kind {
-		case "u":
-			idx = i
-		case "s":
-			v := c.fresh()
-			ec.binds = append(ec.binds, fmt.Sprintf("zidx %s (fun %s => ", i, v))
-			idx = v
-		case "untyped":
-			cv, _ := evalConst(x.Index, c.consts)
-			idx = lit(cv, typ{"u", 64})
-		default:
-			fail(e, c.fset, "index of kind %s", ti.kind)
-		}
+		idx, late := c.index(x.Index, ec)
+		ec.binds = append(ec.binds, late...)
 		v := c.fresh()
 		ec.binds = append(ec.binds, fmt.Sprintf("aget %s %d %s (fun %s => ", arr.coq, arr.len, idx, v))
 		return v, arr.elem
 	}
 	fail(e, c.fset, "unsupported expression %T", e)
 	return "", typ{}
+}
+
+// vt is the type of the Go variable visible under this name (the zero typ if there is none)
+func (c *fn) vt(name string) typ { return c.vtypes[c.resolve(name)] }
+
+// index translates an index expression to a term of type N.  Its operands are evaluated (hoisted into ec) now; the
+// check that a signed index is not negative is returned separately (late), because in an assignment a[i] = v Go
+// evaluates v before it indexes.
+func (c *fn) index(e ast.Expr, ec *ectx) (idx string, late []string) {
+	if cv, ok := evalConst(e, c.consts); ok {
+		return lit(cv, typ{kind: "u", bits: 64}), nil // a constant index (a negative one does not compile)
+	}
+	i, ti := c.expr(e, tInt, ec)
+	switch ti.kind {
+	case "u":
+		idx = i
+	case "s":
+		v := c.fresh()
+		late = append(late, fmt.Sprintf("zidx %s (fun %s => ", i, v))
+		idx = v
+	case "untyped":
+		cv, _ := evalConst(e, c.consts)
+		idx = lit(cv, typ{kind: "u", bits: 64})
+	default:
+		fail(e, c.fset, "index of kind %s", ti.kind)
+	}
+	return idx, late
+}
+
+// makeSlice translates make([]T, n) for an unsigned integer type T: n zeros; a negative n panics (mkzeros).  (Go
+// also panics when n elements exceed the address space; lengths that large are outside the model, like int overflow.)
+func (c *fn) makeSlice(x *ast.CallExpr, ec *ectx) (string, typ) {
+	if len(x.Args) != 2 {
+		fail(x, c.fset, "only make([]T, n) is supported")
+	}
+	at, ok := x.Args[0].(*ast.ArrayType)
+	if !ok || at.Len != nil {
+		fail(x, c.fset, "make of something that is not a slice")
+	}
+	t := c.typeOf(at)
+	n, tn := c.expr(x.Args[1], tInt, ec)
+	switch tn.kind {
+	case "s":
+	case "u":
+		n = fmt.Sprintf("(Z.of_N %s)", n)
+	case "untyped":
+		v, _ := evalConst(x.Args[1], c.consts)
+		n = lit(v, tInt)
+	default:
+		fail(x, c.fset, "length of kind %s", tn.kind)
+	}
+	v := c.fresh()
+	ec.binds = append(ec.binds, fmt.Sprintf("mkzeros %s (fun %s => ", n, v))
+	return v, t
+}
+
+// structLit translates T{f: v, ...} for a struct type of structFiles: the tuple of the fields in declaration order
+func (c *fn) structLit(cl *ast.CompositeLit, ec *ectx) (string, typ) {
+	if cl.Type == nil {
+		fail(cl, c.fset, "composite literal without a type")
+	}
+	t := c.typeOf(cl.Type)
+	if t.kind != "struct" {
+		fail(cl, c.fset, "composite literal of a type that is not a whitelisted struct")
+	}
+	fields := structFields[t.name]
+	vals := make([]string, len(fields))
+	for _, el := range cl.Elts { // Go evaluates the field values in the order they are written
+		kv, ok := el.(*ast.KeyValueExpr)
+		if !ok {
+			fail(el, c.fset, "struct literal without field names")
+		}
+		k, ok := kv.Key.(*ast.Ident)
+		if !ok {
+			fail(el, c.fset, "unsupported field key")
+		}
+		fi := -1
+		for i, f := range fields {
+			if f.name == k.Name {
+				fi = i
+			}
+		}
+		if fi < 0 || vals[fi] != "" {
+			fail(el, c.fset, "unknown or repeated field %s", k.Name)
+		}
+		ft := fields[fi].t
+		v, tv := c.expr(kv.Value, ft, ec)
+		if tv.kind == "untyped" {
+			cv, _ := evalConst(kv.Value, c.consts)
+			v, tv = lit(cv, ft), ft
+		}
+		if tv != ft {
+			fail(el, c.fset, "type mismatch in field %s", k.Name)
+		}
+		vals[fi] = v
+	}
+	for i, f := range fields {
+		if vals[i] == "" {
+			fail(cl, c.fset, "field %s is not given (zero-filling is not supported)", f.name)
+		}
+	}
+	if len(vals) == 1 {
+		return vals[0], t
+	}
+	return "(" + strings.Join(vals, ", ") + ")", t
 }
 
 func exprKey(e ast.Expr) string {
@@ -439,16 +707,24 @@ func (c *fn) binary(x *ast.BinaryExpr, want typ, ec *ectx) (string, typ) {
 			v, _ := evalConst(x.X, c.consts)
 			a, ta = lit(v, want), want
 		}
-		k, tk := c.expr(x.Y, typ{"u", 64}, ec)
+		k, tk := c.expr(x.Y, typ{kind: "u", bits: 64}, ec)
 		switch tk.kind {
 		case "s":
+			ec.binds = append(ec.binds, fmt.Sprintf("guard (Z.ltb %s (0)%%Z) (", k)) // a negative shift count panics
 			k = fmt.Sprintf("(Z.to_N %s)", k)
 		case "untyped":
 			v, _ := evalConst(x.Y, c.consts)
-			k = lit(v, typ{"u", 64})
+			k = lit(v, typ{kind: "u", bits: 64})
+		}
+		if ta.kind == "s" {
+			// int is Z: << does not overflow (like + and *), >> is the arithmetic shift
+			if op == token.SHL {
+				return fmt.Sprintf("(Z.shiftl %s (Z.of_N %s))", a, k), ta
+			}
+			return fmt.Sprintf("(Z.shiftr %s (Z.of_N %s))", a, k), ta
 		}
 		if ta.kind != "u" {
-			fail(x, c.fset, "shift of a signed value is not supported")
+			fail(x, c.fset, "shift of a value of kind %s", ta.kind)
 		}
 		if op == token.SHL {
 			return fmt.Sprintf("(wshl %d %s %s)", ta.bits, a, k), ta
@@ -460,14 +736,24 @@ func (c *fn) binary(x *ast.BinaryExpr, want typ, ec *ectx) (string, typ) {
 	if cmp {
 		w = typ{}
 	}
-	operand := func(e ast.Expr) (string, typ) {
+	operand := func(e ast.Expr, w typ) (string, typ) {
 		if _, ok := evalConst(e, c.consts); ok {
 			return "", tUntyped // constants take the type of the other operand
 		}
 		return c.expr(e, w, ec)
 	}
-	a, ta := operand(x.X)
-	b, tb := operand(x.Y)
+	// a non-constant shift of an untyped constant (1 << j) takes the type the constant would have without the shift:
+	// here, the type of the other operand
+	wx, wy := w, w
+	if w.kind == "" {
+		if c.untypedShift(x.X) && !c.untypedShift(x.Y) {
+			wx = c.probe(x.Y)
+		} else if c.untypedShift(x.Y) && !c.untypedShift(x.X) {
+			wy = c.probe(x.X)
+		}
+	}
+	a, ta := operand(x.X, wx)
+	b, tb := operand(x.Y, wy)
 	if ta.kind == "untyped" && tb.kind == "untyped" {
 		fail(x, c.fset, "constant expression that could not be folded")
 	}
@@ -559,10 +845,48 @@ func (c *fn) binary(x *ast.BinaryExpr, want typ, ec *ectx) (string, typ) {
 				return fmt.Sprintf("(Z.quot %s %s)", a, b), t
 			}
 			return fmt.Sprintf("(Z.rem %s %s)", a, b), t
+		case token.AND: // two's complement on Z, as on int
+			return fmt.Sprintf("(Z.land %s %s)", a, b), t
+		case token.OR:
+			return fmt.Sprintf("(Z.lor %s %s)", a, b), t
+		case token.XOR:
+			return fmt.Sprintf("(Z.lxor %s %s)", a, b), t
 		}
 	}
 	fail(x, c.fset, "unsupported operator %s on %s", op, t.kind)
 	return "", typ{}
+}
+
+// untypedShift: is e (parentheses aside) a non-constant shift whose left operand is an untyped constant?
+func (c *fn) untypedShift(e ast.Expr) bool {
+	for {
+		p, ok := e.(*ast.ParenExpr)
+		if !ok {
+			break
+		}
+		e = p.X
+	}
+	b, ok := e.(*ast.BinaryExpr)
+	if !ok || (b.Op != token.SHL && b.Op != token.SHR) {
+		return false
+	}
+	if _, isConst := evalConst(b, c.consts); isConst {
+		return false
+	}
+	_, leftConst := evalConst(b.X, c.consts)
+	return leftConst
+}
+
+// probe gives the integer type of e (the zero typ when it has none) without emitting anything
+func (c *fn) probe(e ast.Expr) typ {
+	save, saveUsed, saveExt := c.tmp, c.used, c.usedExt
+	c.used, c.usedExt = map[string]bool{}, map[string]bool{}
+	_, t := c.expr(e, typ{}, &ectx{})
+	c.tmp, c.used, c.usedExt = save, saveUsed, saveExt
+	if t.kind == "u" || t.kind == "s" {
+		return t
+	}
+	return typ{}
 }
 
 // call translates a call to another target; returns the result terms
@@ -601,6 +925,10 @@ func (c *fn) call(x *ast.CallExpr, ec *ectx) ([]string, []typ) {
 	for _, a := range s.arrays {
 		c.used[a] = true
 		terms = append(terms, a)
+	}
+	for _, e := range s.externs {
+		c.usedExt[e] = true
+		terms = append(terms, externs[e].coq)
 	}
 	for i, a := range args {
 		t, ta := c.expr(a, s.ptypes[i], ec)
@@ -652,18 +980,31 @@ func (c *fn) pat() string {
 	return "'(" + strings.Join(c.vars, ", ") + ")"
 }
 
-func (c *fn) declare(name string, t typ, n ast.Node) {
+// declare declares the Go variable name in the current scope and returns its Gallina name (see type scope)
+func (c *fn) declare(name string, t typ, n ast.Node) string {
 	if name == "_" {
-		return
+		return "_"
 	}
-	if old, ok := c.vtypes[name]; ok {
-		if old != t {
+	if cn, ok := c.scope.names[name]; ok { // `:=` with an old variable of this very scope on the left
+		if c.vtypes[cn] != t {
 			fail(n, c.fset, "variable %s redeclared with another type", name)
 		}
-		return
+		return cn
 	}
-	c.vtypes[name] = t
-	c.vars = append(c.vars, name)
+	cand := name
+	for {
+		old, used := c.vtypes[cand]
+		if !c.visibleCoq(cand) && (!used || old == t) {
+			if !used {
+				c.vtypes[cand] = t
+				c.vars = append(c.vars, cand)
+			}
+			break
+		}
+		cand += "'"
+	}
+	c.scope.names[name] = cand
+	return cand
 }
 
 func (c *fn) retTerm(vals []string) string {
@@ -711,12 +1052,8 @@ func (c *fn) block(stmts []ast.Stmt, rest func() string) string {
 			}
 			t := c.typeOf(vs.Type)
 			for _, n := range vs.Names {
-				c.declare(n.Name, t, s)
-				zero := lit(0, t)
-				if t.kind == "bool" {
-					zero = "false"
-				}
-				out += fmt.Sprintf("let %s := %s in\n", n.Name, zero)
+				cn := c.declare(n.Name, t, s)
+				out += fmt.Sprintf("let %s := %s in\n", cn, zeroOf(t))
 			}
 		}
 		return out + next()
@@ -727,23 +1064,27 @@ func (c *fn) block(stmts []ast.Stmt, rest func() string) string {
 		if !ok {
 			fail(s, c.fset, "unsupported ++/--")
 		}
-		t := c.vtypes[id.Name]
+		cn := c.resolve(id.Name)
+		t := c.vtypes[cn]
+		if cn == "" || (t.kind != "u" && t.kind != "s") {
+			fail(s, c.fset, "++/-- of %s, which is not an integer variable", id.Name)
+		}
 		one := lit(1, t)
 		var term string
 		if t.kind == "u" {
 			if x.Tok == token.INC {
-				term = fmt.Sprintf("(wadd %d %s %s)", t.bits, id.Name, one)
+				term = fmt.Sprintf("(wadd %d %s %s)", t.bits, cn, one)
 			} else {
-				term = fmt.Sprintf("(wsub %d %s %s)", t.bits, id.Name, one)
+				term = fmt.Sprintf("(wsub %d %s %s)", t.bits, cn, one)
 			}
 		} else {
 			if x.Tok == token.INC {
-				term = fmt.Sprintf("(Z.add %s %s)", id.Name, one)
+				term = fmt.Sprintf("(Z.add %s %s)", cn, one)
 			} else {
-				term = fmt.Sprintf("(Z.sub %s %s)", id.Name, one)
+				term = fmt.Sprintf("(Z.sub %s %s)", cn, one)
 			}
 		}
-		return fmt.Sprintf("let %s := %s in\n", id.Name, term) + next()
+		return fmt.Sprintf("let %s := %s in\n", cn, term) + next()
 	case *ast.ExprStmt:
 		if call, ok := x.X.(*ast.CallExpr); ok {
 			if id, ok := call.Fun.(*ast.Ident); ok && id.Name == "panic" {
@@ -752,7 +1093,7 @@ func (c *fn) block(stmts []ast.Stmt, rest func() string) string {
 		}
 		if call, ok := x.X.(*ast.CallExpr); ok {
 			if sel, ok := call.Fun.(*ast.SelectorExpr); ok {
-				if id, ok := sel.X.(*ast.Ident); ok && c.vtypes[id.Name].kind == "mat" {
+				if id, ok := sel.X.(*ast.Ident); ok && c.vt(id.Name).kind == "mat" {
 					return c.matStmt(id.Name, sel.Sel.Name, call, next)
 				}
 			}
@@ -795,7 +1136,7 @@ func (c *fn) block(stmts []ast.Stmt, rest func() string) string {
 		}
 		fail(s, c.fset, "unsupported branch statement %s", x.Tok)
 	case *ast.BlockStmt:
-		return c.block(append(append([]ast.Stmt{}, x.List...), stmts[1:]...), rest)
+		return c.inScope(x.List, next)
 	case *ast.IfStmt:
 		if x.Init != nil {
 			fail(s, c.fset, "if with an init statement")
@@ -807,23 +1148,23 @@ func (c *fn) block(stmts []ast.Stmt, rest func() string) string {
 		}
 		// variables declared inside the branches must be part of the tuple before we print it: translate first
 		fall := func() string { return "Next " + c.tuple() }
-		thenS := c.block(x.Body.List, fall)
+		thenS := c.inScope(x.Body.List, fall)
 		elseS := ""
 		switch e := x.Else.(type) {
 		case nil:
 			elseS = fall()
 		case *ast.BlockStmt:
-			elseS = c.block(e.List, fall)
+			elseS = c.inScope(e.List, fall)
 		case *ast.IfStmt:
 			elseS = c.block([]ast.Stmt{e}, fall)
 		}
 		// re-translate so that every `Next (...)` mentions the final variable list
-		thenS = c.block(x.Body.List, fall)
+		thenS = c.inScope(x.Body.List, fall)
 		switch e := x.Else.(type) {
 		case nil:
 			elseS = fall()
 		case *ast.BlockStmt:
-			elseS = c.block(e.List, fall)
+			elseS = c.inScope(e.List, fall)
 		case *ast.IfStmt:
 			elseS = c.block([]ast.Stmt{e}, fall)
 		}
@@ -835,6 +1176,12 @@ func (c *fn) block(stmts []ast.Stmt, rest func() string) string {
 		if x.Init != nil {
 			initS = []ast.Stmt{x.Init}
 		}
+		// the for statement is a scope of its own (the variables of the init statement); its body is a nested one,
+		// which the post statement is outside of
+		outer := c.scope
+		forScope := newScope(outer)
+		c.scope = forScope
+		fall := func() string { return "Next " + c.tuple() }
 		fuel := fmt.Sprintf("(N.to_nat %d)", c.cur.t.fuel)
 		if c.cur.t.fuelExpr != "" {
 			fuel = c.cur.t.fuelExpr
@@ -854,31 +1201,39 @@ func (c *fn) block(stmts []ast.Stmt, rest func() string) string {
 			var b string
 			if hasContinue(x.Body) {
 				// `continue` jumps to the post statement: the body proper is run under catch_cnt, then the post statement
-				inner := c.block(x.Body.List, func() string { return "Next " + c.tuple() })
+				inner := c.inScope(x.Body.List, fall)
 				post := "Next " + c.tuple()
 				if x.Post != nil {
-					post = c.block([]ast.Stmt{x.Post}, func() string { return "Next " + c.tuple() })
+					post = c.block([]ast.Stmt{x.Post}, fall)
 				}
-				inner = c.block(x.Body.List, func() string { return "Next " + c.tuple() })
+				inner = c.inScope(x.Body.List, fall)
 				b = fmt.Sprintf("seq (catch_cnt (%s)) (fun %s =>\n%s)", inner, c.pat(), post)
 			} else {
-				list := append([]ast.Stmt{}, x.Body.List...)
-				if x.Post != nil {
-					list = append(list, x.Post)
-				}
-				b = c.block(list, func() string { return "Next " + c.tuple() })
+				b = c.inScope(x.Body.List, func() string {
+					if x.Post != nil {
+						return c.block([]ast.Stmt{x.Post}, fall)
+					}
+					return fall()
+				})
 			}
 			return wrapBinds(ec, fmt.Sprintf("if %s then (%s) else Brk %s", cond, b, c.tuple()))
 		}
 		loopS := func() string {
 			b := body()
 			b = body() // second pass: all variables known
-			return fmt.Sprintf("seq (loop %s (fun %s =>\n%s) %s) (fun %s =>\n%s)", fuel, c.pat(), b, c.tuple(), c.pat(), next())
+			c.scope = outer
+			n := next()
+			c.scope = forScope
+			return fmt.Sprintf("seq (loop %s (fun %s =>\n%s) %s) (fun %s =>\n%s)", fuel, c.pat(), b, c.tuple(), c.pat(), n)
 		}
+		var r string
 		if len(initS) > 0 {
-			return pre + c.block(initS, loopS)
+			r = pre + c.block(initS, loopS)
+		} else {
+			r = loopS()
 		}
-		return loopS()
+		c.scope = outer
+		return r
 	}
 	fail(s, c.fset, "unsupported statement %T", s)
 	return ""
@@ -908,45 +1263,88 @@ func (c *fn) assign(x *ast.AssignStmt, next func() string) string {
 			if x.Tok == token.DEFINE {
 				c.declare(id.Name, ts[i], x)
 			}
-			if c.vtypes[id.Name] != ts[i] {
+			cn := c.resolve(id.Name)
+			if cn == "" || c.vtypes[cn] != ts[i] {
 				fail(x, c.fset, "type mismatch in assignment to %s", id.Name)
 			}
-			out += fmt.Sprintf("let %s := %s in\n", id.Name, vals[i])
+			out += fmt.Sprintf("let %s := %s in\n", cn, vals[i])
 		}
 		return wrapBinds(ec, out+next())
+	}
+	// a[i] = v on a local slice / fixed-size array: Go evaluates the operands of the index and v, then indexes
+	if ix, ok := x.Lhs[0].(*ast.IndexExpr); ok {
+		if len(x.Lhs) != 1 || len(x.Rhs) != 1 || x.Tok != token.ASSIGN {
+			fail(x, c.fset, "only the plain single assignment a[i] = v to an element is supported")
+		}
+		id, ok := ix.X.(*ast.Ident)
+		if !ok || c.resolve(id.Name) == "" {
+			fail(x, c.fset, "assignment to an element of something that is not a local variable")
+		}
+		cn := c.resolve(id.Name)
+		lt := c.vtypes[cn]
+		if (lt.kind != "list" && lt.kind != "arr") || lt.bits == 0 {
+			fail(x, c.fset, "assignment to an element of %s, which is not a slice / array of unsigned integers", id.Name)
+		}
+		et := typ{kind: "u", bits: lt.bits}
+		idx, late := c.index(ix.Index, ec)
+		v, tv := c.expr(x.Rhs[0], et, ec)
+		if tv.kind == "untyped" {
+			cv, _ := evalConst(x.Rhs[0], c.consts)
+			v, tv = lit(cv, et), et
+		}
+		if tv != et {
+			fail(x, c.fset, "type mismatch in assignment to an element of %s (%s%d := %s%d)", id.Name, et.kind, et.bits, tv.kind, tv.bits)
+		}
+		ec.binds = append(ec.binds, late...)
+		ec.binds = append(ec.binds, fmt.Sprintf("lset %s %s %s (fun %s =>\n", cn, idx, v, cn))
+		return wrapBinds(ec, next())
 	}
 	if len(x.Lhs) != len(x.Rhs) {
 		fail(x, c.fset, "assignment count mismatch")
 	}
 	// evaluate all right-hand sides first (Go semantics for tuple assignment)
-	type asg struct{ name, term string }
+	type asg struct {
+		name, term string
+		t          typ
+		resolved   bool // name is already the Gallina name
+	}
 	var as []asg
 	for i, l := range x.Lhs {
 		id, ok := l.(*ast.Ident)
 		if !ok {
 			fail(x, c.fset, "unsupported assignment target (only local variables)")
 		}
+		// the type an untyped constant takes: that of the assigned variable; for `:=` only if it redeclares a
+		// variable of this very scope (otherwise the variable is new and typed by the right-hand side alone)
 		var want typ
-		if t, ok := c.vtypes[id.Name]; ok {
-			want = t
+		if x.Tok == token.DEFINE {
+			if cn, ok := c.scope.names[id.Name]; ok {
+				want = c.vtypes[cn]
+			}
+		} else if cn := c.resolve(id.Name); cn != "" {
+			want = c.vtypes[cn]
 		}
 		var rhs ast.Expr = x.Rhs[i]
 		opmap := map[token.Token]token.Token{token.ADD_ASSIGN: token.ADD, token.SUB_ASSIGN: token.SUB, token.MUL_ASSIGN: token.MUL,
 			token.XOR_ASSIGN: token.XOR, token.AND_ASSIGN: token.AND, token.OR_ASSIGN: token.OR, token.SHL_ASSIGN: token.SHL,
 			token.SHR_ASSIGN: token.SHR, token.QUO_ASSIGN: token.QUO, token.REM_ASSIGN: token.REM}
 		if op, ok := opmap[x.Tok]; ok {
+			if id.Name == "_" || c.resolve(id.Name) == "" {
+				fail(x, c.fset, "%s of an unknown variable", x.Tok)
+			}
 			rhs = &ast.BinaryExpr{X: id, Op: op, Y: &ast.ParenExpr{X: x.Rhs[i]}, OpPos: x.TokPos}
 		} else if x.Tok != token.ASSIGN && x.Tok != token.DEFINE {
 			fail(x, c.fset, "unsupported assignment operator %s", x.Tok)
 		}
 		if call, ok := rhs.(*ast.CallExpr); ok {
 			if fid, ok := call.Fun.(*ast.Ident); ok && fid.Name == "append" && len(call.Args) == 2 {
-				if a0, ok := call.Args[0].(*ast.Ident); ok && a0.Name == id.Name && c.vtypes[id.Name].kind == "list" {
-					ev, et := c.expr(call.Args[1], typ{"u", 16}, ec)
-					if et != (typ{"u", 16}) {
+				if a0, ok := call.Args[0].(*ast.Ident); ok && a0.Name == id.Name && x.Tok == token.ASSIGN && c.vt(id.Name) == (typ{kind: "list", bits: 0}) {
+					ev, et := c.expr(call.Args[1], typ{kind: "u", bits: 16}, ec)
+					if et != (typ{kind: "u", bits: 16}) {
 						fail(x, c.fset, "append of a non-T element")
 					}
-					as = append(as, asg{id.Name, fmt.Sprintf("(%s ++ [%s])", id.Name, ev)})
+					cn := c.resolve(id.Name)
+					as = append(as, asg{cn, fmt.Sprintf("(%s ++ [%s])", cn, ev), c.vtypes[cn], true})
 					continue
 				}
 			}
@@ -962,15 +1360,41 @@ func (c *fn) assign(x *ast.AssignStmt, next func() string) string {
 		if id.Name == "_" {
 			continue
 		}
+		if t.kind == "list" || t.kind == "struct" {
+			// a slice shares its elements with its copies, which a list does not: only a fresh slice may be assigned
+			r := rhs
+			for {
+				p, ok := r.(*ast.ParenExpr)
+				if !ok {
+					break
+				}
+				r = p.X
+			}
+			if _, fresh := r.(*ast.CallExpr); !fresh && t.kind == "list" {
+				fail(x, c.fset, "assignment of a slice that is not freshly made (aliasing is not modelled)")
+			}
+			if _, isId := r.(*ast.Ident); isId && t.kind == "struct" {
+				fail(x, c.fset, "copy of a struct pointer (aliasing is not modelled)")
+			}
+		}
+		as = append(as, asg{id.Name, term, t, false})
+	}
+	// the variables come into scope only after every right-hand side is translated (x := x + 1 reads the outer x)
+	for i := range as {
+		goName, t := as[i].name, as[i].t
+		if as[i].resolved {
+			continue
+		}
 		if x.Tok == token.DEFINE {
-			c.declare(id.Name, t, x)
+			c.declare(goName, t, x)
 		}
-		if vt, ok := c.vtypes[id.Name]; !ok {
-			fail(x, c.fset, "assignment to undeclared %s", id.Name)
-		} else if vt != t {
-			fail(x, c.fset, "type mismatch in assignment to %s (%s%d := %s%d)", id.Name, vt.kind, vt.bits, t.kind, t.bits)
+		cn := c.resolve(goName)
+		if cn == "" {
+			fail(x, c.fset, "assignment to undeclared %s", goName)
+		} else if vt := c.vtypes[cn]; vt != t {
+			fail(x, c.fset, "type mismatch in assignment to %s (%s%d := %s%d)", goName, vt.kind, vt.bits, t.kind, t.bits)
 		}
-		as = append(as, asg{id.Name, term})
+		as[i].name = cn
 	}
 	out := ""
 	if len(as) == 1 {
@@ -1027,7 +1451,7 @@ func main() {
 	}
 	var out strings.Builder
 	out.WriteString("(* GENERATED by tools/gotocoq from the Go sources - do not edit *)\n")
-	out.WriteString("From Coq Require Import NArith ZArith Bool List.\nImport ListNotations.\nFrom Gopar Require Import Model.Base Model.GoSem Model.Matrix.\nOpen Scope N_scope.\n\n")
+	out.WriteString("From Coq Require Import NArith ZArith Bool List.\nImport ListNotations.\nFrom Gopar Require Import Model.Base Model.GoSem Model.Matrix.\nFrom Gopar Require Import Model.GoSemList.\nOpen Scope N_scope.\n\n")
 	// constants
 	pkgConsts := map[string]map[string]int64{}
 	for _, cf := range constFiles {
@@ -1094,10 +1518,20 @@ func main() {
 		}
 	}
 	out.WriteString("\n")
+	// the fields of the whitelisted struct types, from their declarations
+	var snames []string
+	for n := range structFiles {
+		snames = append(snames, n)
+	}
+	sort.Strings(snames)
+	for _, n := range snames {
+		loadStruct(n, parse(structFiles[n]), fset)
+	}
 	// signatures first (so that calls can be typed), in target order
 	sigs := map[string]*sig{}
 	decls := map[string]*ast.FuncDecl{}
 	recvNames := map[string]string{}
+	sigErr := map[string]string{}
 	for _, t := range targets {
 		f := parse(t.file)
 		var fd *ast.FuncDecl
@@ -1129,29 +1563,44 @@ func main() {
 				s.ptypes = append(s.ptypes, rt)
 			}
 		}
-		for _, p := range fd.Type.Params.List {
-			pt := c.typeOf(p.Type)
-			for _, n := range p.Names {
-				s.params = append(s.params, n.Name)
-				s.ptypes = append(s.ptypes, pt)
-			}
-		}
-		if fd.Type.Results != nil {
-			for _, r := range fd.Type.Results.List {
-				rt := c.typeOf(r.Type)
-				k := len(r.Names)
-				if k == 0 {
-					k = 1
+		func() {
+			// a signature outside the subset makes this one target untranslated (reported by translateOne)
+			defer func() {
+				if r := recover(); r != nil {
+					b, ok := r.(bad)
+					if !ok {
+						panic(r)
+					}
+					sigErr[key] = b.msg
 				}
-				for i := 0; i < k; i++ {
-					s.results = append(s.results, rt)
+			}()
+			for _, p := range fd.Type.Params.List {
+				pt := c.typeOf(p.Type)
+				if pt.kind == "list" || pt.kind == "struct" {
+					fail(p.Type, fset, "slice or struct parameter (sharing with the caller is not modelled)")
+				}
+				for _, n := range p.Names {
+					s.params = append(s.params, n.Name)
+					s.ptypes = append(s.ptypes, pt)
 				}
 			}
-		}
-		sigs[key] = s
+			if fd.Type.Results != nil {
+				for _, r := range fd.Type.Results.List {
+					rt := c.typeOf(r.Type)
+					k := len(r.Names)
+					if k == 0 {
+						k = 1
+					}
+					for i := 0; i < k; i++ {
+						s.results = append(s.results, rt)
+					}
+				}
+			}
+			sigs[key] = s
+		}()
 	}
 	for _, t := range targets {
-		translateOne(t, decls, sigs, pkgConsts, parse, fset, &out)
+		translateOne(t, decls, sigs, sigErr, pkgConsts, parse, fset, &out)
 	}
 	if err := os.WriteFile(outp, []byte(out.String()), 0o644); err != nil {
 		panic(err)
@@ -1160,7 +1609,7 @@ func main() {
 
 // translateOne emits the definition of one target; a function outside the subset is reported in a comment and
 // skipped, so that only the link files that need it stop compiling
-func translateOne(t target, decls map[string]*ast.FuncDecl, sigs map[string]*sig, pkgConsts map[string]map[string]int64,
+func translateOne(t target, decls map[string]*ast.FuncDecl, sigs map[string]*sig, sigErr map[string]string, pkgConsts map[string]map[string]int64,
 	parse func(string) *ast.File, fset *token.FileSet, out *strings.Builder) {
 	defer func() {
 		if r := recover(); r != nil {
@@ -1175,13 +1624,31 @@ func translateOne(t target, decls map[string]*ast.FuncDecl, sigs map[string]*sig
 	}()
 	{
 		key := t.recv + "." + t.name
+		if msg, ok := sigErr[key]; ok {
+			panic(bad{msg})
+		}
 		fd, s := decls[key], sigs[key]
 		consts := map[string]int64{}
 		for k, v := range pkgConsts[filepath.Dir(t.file)] {
 			consts[k] = v
 		}
 		collectConsts(parse(t.file), consts)
-		c := &fn{fset: fset, consts: consts, sigs: sigs, cur: s, vtypes: map[string]typ{}, used: map[string]bool{}}
+		c := &fn{fset: fset, consts: consts, sigs: sigs, cur: s, vtypes: map[string]typ{}, used: map[string]bool{}, usedExt: map[string]bool{},
+			imports: map[string]string{}}
+		for _, im := range parse(t.file).Imports {
+			path, err := strconv.Unquote(im.Path.Value)
+			if err != nil {
+				continue
+			}
+			local := path[strings.LastIndex(path, "/")+1:]
+			if im.Name != nil {
+				local = im.Name.Name
+			}
+			c.imports[local] = path
+		}
+		// the function's own scope: named results, the package-level in/out slices, the parameters
+		fscope := newScope(nil)
+		c.scope = fscope
 		for i, p := range s.params {
 			c.vtypes[p] = s.ptypes[i]
 		}
@@ -1204,7 +1671,7 @@ func translateOne(t target, decls map[string]*ast.FuncDecl, sigs map[string]*sig
 		}
 		for _, v := range t.inout {
 			if globalLists[v] {
-				c.declare(v, typ{"list", 0}, fd)
+				c.declare(v, typ{kind: "list", bits: 0}, fd)
 				pre += fmt.Sprintf("let %s := (@nil N) in\n", v)
 			}
 		}
@@ -1212,6 +1679,13 @@ func translateOne(t target, decls map[string]*ast.FuncDecl, sigs map[string]*sig
 		for i, p := range s.params {
 			_ = i
 			c.vars = append(c.vars, p)
+			fscope.names[p] = p
+		}
+		enter := func() { // every pass starts from a fresh copy of the function's scope
+			c.scope = newScope(nil)
+			for k, v := range fscope.names {
+				c.scope.names[k] = v
+			}
 		}
 		end := func() string {
 			if len(s.results) == 0 {
@@ -1222,8 +1696,10 @@ func translateOne(t target, decls map[string]*ast.FuncDecl, sigs map[string]*sig
 			}
 			return "Pnc"
 		}
+		enter()
 		c.block(fd.Body.List, end) // first pass: discover locals and arrays
 		c.tmp = 0
+		enter()
 		body := c.block(fd.Body.List, end)
 		// locals that are neither parameters nor named results must exist from the start (tuple shape is fixed)
 		for _, v := range c.vars {
@@ -1234,12 +1710,13 @@ func translateOne(t target, decls map[string]*ast.FuncDecl, sigs map[string]*sig
 						isR = true
 					}
 				}
-				if !isR && c.vtypes[v].kind != "list" {
-					z := lit(0, c.vtypes[v])
-					if c.vtypes[v].kind == "bool" {
-						z = "false"
+				for _, r := range t.inout {
+					if r == v {
+						isR = true // initialised above
 					}
-					pre += fmt.Sprintf("let %s := %s in\n", v, z)
+				}
+				if !isR {
+					pre += fmt.Sprintf("let %s := %s in\n", v, zeroOf(c.vtypes[v]))
 				}
 			}
 		}
@@ -1256,6 +1733,15 @@ func translateOne(t target, decls map[string]*ast.FuncDecl, sigs map[string]*sig
 		for _, a := range arrs {
 			ps = append(ps, fmt.Sprintf("(%s : N -> N)", a))
 		}
+		var exts []string
+		for e := range c.usedExt {
+			exts = append(exts, e)
+		}
+		sort.Slice(exts, func(i, j int) bool { return externs[exts[i]].coq < externs[exts[j]].coq })
+		s.externs = exts
+		for _, e := range exts {
+			ps = append(ps, fmt.Sprintf("(%s : %s)", externs[e].coq, externs[e].coqType))
+		}
 		for i, p := range s.params {
 			ps = append(ps, fmt.Sprintf("(%s : %s)", p, s.ptypes[i].coq()))
 		}
@@ -1265,6 +1751,52 @@ func translateOne(t target, decls map[string]*ast.FuncDecl, sigs map[string]*sig
 		}
 		fmt.Fprintf(out, "(* %s: func %s%s *)\nDefinition %s %s : ctl %s %s :=\n%s%s.\n\n", t.file, map[bool]string{true: "(" + t.recv + ") ", false: ""}[t.recv != ""], t.name,
 			t.coq, strings.Join(ps, " "), prodType(vts), prodType(resWithInout(s.results, t.inout, c.vtypes)), pre, body)
+	}
+}
+
+// loadStruct reads the fields of the struct type name from its declaration in f; a declaration outside the subset
+// leaves the type unknown (the targets that use it are then not translated)
+func loadStruct(name string, f *ast.File, fset *token.FileSet) {
+	defer func() {
+		if r := recover(); r != nil {
+			if b, ok := r.(bad); ok {
+				fmt.Fprintln(os.Stderr, "gotocoq: struct "+name+" not usable: "+b.msg)
+				delete(structFields, name)
+				return
+			}
+			panic(r)
+		}
+	}()
+	c := &fn{fset: fset}
+	for _, d := range f.Decls {
+		g, ok := d.(*ast.GenDecl)
+		if !ok || g.Tok != token.TYPE {
+			continue
+		}
+		for _, sp := range g.Specs {
+			ts := sp.(*ast.TypeSpec)
+			st, ok := ts.Type.(*ast.StructType)
+			if !ok || ts.Name.Name != name {
+				continue
+			}
+			var fs []field
+			for _, fl := range st.Fields.List {
+				if len(fl.Names) == 0 {
+					fail(fl, fset, "embedded field")
+				}
+				ft := c.typeOf(fl.Type)
+				if ft.kind != "u" && ft.kind != "s" && ft.kind != "bool" && ft.kind != "arr" {
+					fail(fl, fset, "field of kind %s (only integers, booleans and arrays of unsigned integers)", ft.kind)
+				}
+				for _, n := range fl.Names {
+					fs = append(fs, field{n.Name, ft})
+				}
+			}
+			if len(fs) == 0 {
+				fail(ts, fset, "struct without fields")
+			}
+			structFields[name] = fs
+		}
 	}
 }
 
@@ -1311,8 +1843,8 @@ func (c *fn) matStmt(m, method string, call *ast.CallExpr, next func() string) s
 			fail(call, c.fset, "scaleRow arity")
 		}
 		i := c.matIndex(m, call.Args[0], true, ec)
-		cv, ct := c.expr(call.Args[1], typ{"u", 16}, ec)
-		if ct != (typ{"u", 16}) {
+		cv, ct := c.expr(call.Args[1], typ{kind: "u", bits: 16}, ec)
+		if ct != (typ{kind: "u", bits: 16}) {
 			fail(call, c.fset, "scaleRow factor type")
 		}
 		term = fmt.Sprintf("(Matrix.scale_row mul %s %s %s)", i, cv, m)
@@ -1322,8 +1854,8 @@ func (c *fn) matStmt(m, method string, call *ast.CallExpr, next func() string) s
 		}
 		d := c.matIndex(m, call.Args[0], true, ec)
 		sr := c.matIndex(m, call.Args[1], true, ec)
-		cv, ct := c.expr(call.Args[2], typ{"u", 16}, ec)
-		if ct != (typ{"u", 16}) {
+		cv, ct := c.expr(call.Args[2], typ{kind: "u", bits: 16}, ec)
+		if ct != (typ{kind: "u", bits: 16}) {
 			fail(call, c.fset, "addScaledRow factor type")
 		}
 		term = fmt.Sprintf("(Matrix.add_scaled_row mul %s %s %s %s)", d, sr, cv, m)
